@@ -980,7 +980,18 @@ pub fn check_case(ctx: &mut Ctx, case: &Case, cfg: &Cfg, props: &[String], want_
                     res.viols.push(Viol { prop: "C11", clause: "fits_narrower_same_result", detail: format!("W1={w1} W2={w2}: result for W2 has max line {mb2} but differs: {}", first_diff(y2, y1)) });
                 }
                 if line_count(y2) > line_count(y1) {
-                    let site = if max_line_len(y1).0 > *w1 as usize { " [site: the narrower width cannot be honoured - its own result has lines longer than W1]" } else { "" };
+                    // F5: some CODE of the narrower result does not fit (a line that is too long even without its trailing
+                    // line comment); F10: both results fit their own widths. A narrower result whose only over-long lines
+                    // are over-long because of a trailing comment is neither.
+                    let code_len = |l: &str| -> usize {
+                        let code = match l.find("//") { Some(p) if !l[..p].contains('\'') || l[..p].matches('\'').count() % 2 == 0 => &l[..p], _ => l };
+                        code.trim_end().chars().count()
+                    };
+                    let code_overflows = y1.lines().any(|l| code_len(l) > *w1 as usize);
+                    let fits1 = max_line_len(y1).0 <= *w1 as usize;
+                    let fits2 = max_line_len(y2).0 <= *w2 as usize;
+                    let site = if code_overflows { " [site: the narrower width cannot be honoured - its own result has lines longer than W1]" }
+                               else if fits1 && fits2 { " [site: both results fit their own widths]" } else { "" };
                     res.viols.push(Viol { prop: "C11", clause: "wider_not_more_lines", detail: format!("W1={w1} -> {} lines, W2={w2} -> {} lines{site}", line_count(y1), line_count(y2)) });
                 }
                 let (mb1, _) = max_line_len(y1);
